@@ -6,6 +6,8 @@ package main
 // profile changes are refused.
 
 import (
+	"sync"
+	"runtime"
 	"bytes"
 	"crypto/sha256"
 	"database/sql"
@@ -393,6 +395,18 @@ func c15Outage(c *vfeng.Ctx) {
 			primAfter := c15ReadFile(sick, profileDBFilename)
 			sick.setPrimaryOutage(false) // fault plans are process-wide: the healthy twin must not see this outage
 			sick.Close()
+			// the primary is unreachable when the request reads, reachable again when it writes
+			half, fhalf := mk()
+			half.setPrimaryReadOutage(true)
+			halfBefore := c15ReadFile(half, profileDBFilename)
+			rhalf, _ := run(half, fhalf)
+			half.setPrimaryReadOutage(false)
+			halfAfter := c15ReadFile(half, profileDBFilename)
+			half.Close()
+			c.Eval(1)
+			if halfBefore != halfAfter {
+				c.Violate("C15|outage|primary-changed-from-cached-view|"+rt.Name, fmt.Sprintf("%s %s read the profile from the cache (primary not answering reads) and then wrote to the primary (status %d)", m, p.Path, rhalf.Code), map[string]interface{}{"part": "d", "route": rt.Name, "method": m, "mode": "reads-down"})
+			}
 			c.Eval(2)
 			pt := map[string]interface{}{"part": "d", "route": rt.Name, "method": m}
 			okH := rh.Code/100 == 2 || rh.Code/100 == 3
@@ -415,6 +429,80 @@ func c15Outage(c *vfeng.Ctx) {
 	}
 }
 
+// vfFakeMail records what the server hands to its mail sender.
+type vfFakeMail struct {
+	mu   sync.Mutex
+	Sent int
+}
+
+func (m *vfFakeMail) SendMail(from string, to []string, msg []byte) error {
+	// let the caller reach its select first (sendMail drops a result nobody is waiting for)
+	for i := 0; i < 2000; i++ {
+		runtime.Gosched()
+	}
+	m.mu.Lock()
+	m.Sent++
+	m.mu.Unlock()
+	return nil
+}
+
+// c15OutageSelfService: deployments that let users mail themselves a bootstrap
+// OTP at login; the login of a user without devices changes the profile when the
+// primary is up and must change nothing, and mail nothing, while it is not -
+// whether the primary is down for the whole request or only when the request reads.
+func c15OutageSelfService(c *vfeng.Ctx) {
+	mk := func() (*vfWorld, *vfFakeMail) {
+		users := map[string]string{"alice": vfUsers["alice"], "dave": "dave-pw"}
+		w := vfNewWorld(vfOpts{CertBackends: []string{"U2F"}, WebUIBackends: []string{"U2F"}, EnableTOTP: true, EnableBootstrap: true, Users: users})
+		m := &vfFakeMail{}
+		w.state.Config.Base.AllowSelfServiceBootstrapOTP = true
+		w.state.Config.Email.Domain = "example.com"
+		w.state.emailManager = m
+		w.vfGiveTOTP("alice", 1)
+		vfMust(w.state.SaveUserProfile("dave", &userProfile{U2fAuthData: map[int64]*u2fAuthData{}, TOTPAuthData: map[int64]*totpAuthData{}}))
+		vfMust(copyDBIntoSQLite(w.state.db, w.state.cacheDB, "sqlite"))
+		return w, m
+	}
+	for _, user := range []string{"dave", "alice"} {
+		for _, via := range []string{"form", "basic"} {
+			for _, mode := range []string{"healthy", "down", "reads-down"} {
+				w, m := mk()
+				switch mode {
+				case "down":
+					w.setPrimaryOutage(true)
+				case "reads-down":
+					w.setPrimaryReadOutage(true)
+				}
+				before := c15ReadFile(w, profileDBFilename)
+				q := vfReq{Method: "POST", Path: "/api/v0/login", Form: url.Values{"username": {user}, "password": {map[string]string{"alice": vfUsers["alice"], "dave": "dave-pw"}[user]}}}
+				if via == "basic" {
+					q = vfReq{Method: "POST", Path: "/api/v0/login", HasBasic: true, Basic: [2]string{user, q.Form.Get("password")}}
+				}
+				resp := w.Do(q.Build())
+				w.setPrimaryOutage(false)
+				w.setPrimaryReadOutage(false)
+				after := c15ReadFile(w, profileDBFilename)
+				m.mu.Lock()
+				sent := m.Sent
+				m.mu.Unlock()
+				w.Close()
+				c.Eval(1)
+				pt := map[string]interface{}{"part": "d-selfservice", "user": user, "via": via, "mode": mode}
+				switch {
+				case mode != "healthy" && before != after:
+					c.Violate("C15|outage|primary-changed|loginHandler|self-service-bootstrap-otp", fmt.Sprintf("login of %s (%s) with the primary %s changed the primary store (status %d, %d mails)", user, via, mode, resp.Code, sent), pt)
+				case mode != "healthy" && sent > 0:
+					c.Violate("C15|outage|bootstrap-otp-mailed|loginHandler|self-service-bootstrap-otp", fmt.Sprintf("login of %s (%s) with the primary %s mailed %d messages about a bootstrap OTP that was generated from the cached profile", user, via, mode, sent), pt)
+				case mode != "healthy" && resp.Code != 200:
+					c.Violate("C15|outage|authentication-unavailable|loginHandler|self-service-bootstrap-otp", fmt.Sprintf("login of %s (%s) with the primary %s answered %d", user, via, mode, resp.Code), pt)
+				default:
+					c.Class(fmt.Sprintf("selfservice|%s|%s|status=%d|changed=%v|mails=%d", user, mode, resp.Code, before != after, sent), pt)
+				}
+			}
+		}
+	}
+}
+
 func c15ReadFile(w *vfWorld, name string) string {
 	// read the primary file through a private, unfaulted connection
 	db, err := sql.Open("sqlite3", filepath.Join(w.dir, name))
@@ -432,7 +520,7 @@ func init() {
 	vfRegister(&vfeng.Check{
 		ID:    "C15",
 		Level: "fault_enumeration",
-		Rule:  "(a) every profile shape (empty, nil/empty maps, 1-3 U2F registrations with real attestation certificates, TOTP entries, pending registration/TOTP secret, bootstrap OTP, WebAuthn credential + session data, 10 kB display name) saved, read back from the primary, synchronised and read back from the cache during an outage; (b) BFS with canonical-state deduplication over {save/delete user, upsert/delete signed record, tick 97h, sync} for two users on the real storage functions, comparing cache and primary after every completed synchronisation; (c) for every synchronisation reached at history depth <= 3 (thorough 4): a fault (error, and crash = connection abort + reopen) injected at EVERY SQL operation of copyDBIntoSQLite on the source and on the destination connection - cache content must equal the previous or the complete new content; (d) every route x {GET,POST} with an admitted credential against a healthy twin and a twin whose primary is unreachable (differential oracle)",
+		Rule:  "(a) every profile shape (empty, nil/empty maps, 1-3 U2F registrations with real attestation certificates, TOTP entries, pending registration/TOTP secret, bootstrap OTP, WebAuthn credential + session data, 10 kB display name) saved, read back from the primary, synchronised and read back from the cache during an outage; (b) BFS with canonical-state deduplication over {save/delete user, upsert/delete signed record, tick 97h, sync} for two users on the real storage functions, comparing cache and primary after every completed synchronisation; (c) for every synchronisation reached at history depth <= 3 (thorough 4): a fault (error, and crash = connection abort + reopen) injected at EVERY SQL operation of copyDBIntoSQLite on the source and on the destination connection - cache content must equal the previous or the complete new content; (d) every route x {GET,POST} with an admitted credential against a healthy twin, a twin whose primary is unreachable and a twin whose primary does not answer reads but takes writes (outage ending inside the request); plus deployments with self-service bootstrap OTP: login of a user with/without devices via form and basic-auth in the three modes, with a recording mail sender (differential oracle)",
 		Assumptions: []string{"only the sqlite flavour of the storage layer is executed (no PostgreSQL in the sandbox)", "a crash is modelled as loss of the connection's uncommitted work followed by reopening the files; sqlite's own atomic-commit machinery is trusted", "an outage is modelled as in the repository's own tests: the primary's read timeout has already elapsed (remoteDBQueryTimeout=0) and every statement on it fails"},
 		Bounds: func(tier string) map[string]interface{} {
 			d, fd := 4, 3
@@ -450,6 +538,7 @@ func init() {
 			if c.Shard == 0 {
 				c15RoundTrips(c)
 				c15Outage(c)
+				c15OutageSelfService(c)
 				if c.NShards > 1 {
 					return
 				}
@@ -472,6 +561,7 @@ func init() {
 			cc := &vfeng.Ctx{Res: &vfeng.Result{Classes: map[string]json.RawMessage{}, ClassCount: map[string]int64{}, Counters: map[string]int64{}, Sets: map[string][]string{}}}
 			c15RoundTrips(cc)
 			c15Outage(cc)
+			c15OutageSelfService(cc)
 			if len(cc.Res.Violations) > 0 {
 				return true, cc.Res.Violations[0].Key + " :: " + cc.Res.Violations[0].What
 			}
